@@ -269,7 +269,11 @@ func reportProperty(ps *PropSpec, res *PropResult, tier string, seed int, t0 tim
 	var slowest string
 	var samples []map[string]string
 	knownOb := 0
+	retried := 0
+	var slow []map[string]interface{}
+	var timings []string
 	for _, o := range res.Counted {
+		timings = append(timings, fmt.Sprintf("%.2f\t%s\t%s\t%d\t%s", o.Result.Seconds, o.Result.Status, o.Result.Solver, o.Result.Retried, o.Name))
 		// known finding?
 		isKnown := false
 		if !o.ok() {
@@ -296,6 +300,12 @@ func reportProperty(ps *PropSpec, res *PropResult, tier string, seed int, t0 tim
 			if o.Result.Seconds > solverMax {
 				solverMax = o.Result.Seconds
 				slowest = o.Name
+			}
+			if o.Result.Retried > 0 {
+				retried++
+			}
+			if o.Result.Seconds > 5 || o.Result.Retried > 0 {
+				slow = append(slow, map[string]interface{}{"obligation": o.Name, "solver": o.Result.Solver, "seconds": round3(o.Result.Seconds), "retry_pass": o.Result.Retried})
 			}
 			if len(samples) < 6 && (len(samples) == 0 || o.Kind != samples[len(samples)-1]["kind"]) {
 				samples = append(samples, map[string]string{"obligation": o.Name, "kind": o.Kind, "at": o.Pos, "result": "unsat (" + o.Result.Solver + ")"})
@@ -390,9 +400,11 @@ func reportProperty(ps *PropSpec, res *PropResult, tier string, seed int, t0 tim
 			"solver_seconds_total": round3(solverTotal), "solver_seconds_max": round3(solverMax), "slowest_obligation": slowest,
 			"covers_checked": len(res.Covers), "covers_vacuous": coverBad, "known_finding_obligations": knownOb,
 			"samples": samples, "bounded_standins": ps.Bounded, "min_obligations_floor": ps.MinObl, "lemmas": len(res.Lemmas),
+			"decided_in_retry_pass": retried, "slow_obligations": slow,
 		},
 		"assumptions": assumptions, "wall_s": round3(time.Since(t0).Seconds()), "violations": violations,
 	}
+	os.WriteFile(filepath.Join(outDir, "timings.tsv"), []byte(strings.Join(timings, "\n")+"\n"), 0o644)
 	if writeEvidence {
 		os.MkdirAll(filepath.Join(verifRoot(), "evidence"), 0o755)
 		data, _ := json.MarshalIndent(ev, "", " ")
